@@ -119,6 +119,24 @@ def _declared(ti):
     return _DECLARED[ti]
 
 
+_NEEDED = {}
+
+
+def _needed_fields(ti):
+    """the fields a text reads (identifiers after `splitters:` and in predicates), via the reference lexer"""
+    if ti not in _NEEDED:
+        from .. import refgrammar
+
+        toks = refgrammar.lex(_text_of(ti))
+        _NEEDED[ti] = sorted({tx for i, (ty, tx) in enumerate(toks) if ty == "ID" and i > 1})
+    return _NEEDED[ti]
+
+
+def _minimal(ti, p):
+    """the probe reduced to exactly the fields the text needs (an evaluator must not insist on fields of an EARLIER text)"""
+    return {k: v for k, v in p.items() if k in _needed_fields(ti)}
+
+
 def _fresh(ti):
     if ti not in _FRESH:
         res = sut.compile_text(_text_of(ti))
@@ -155,7 +173,7 @@ def histories(draw):
             ops.append(["recompile_invalid", e, t])
         else:
             ops.append(["call", e, draw(st.integers(0, len(PROBES) - 1))])
-    return {"ops": ops}
+    return {"ops": ops, "probe_only_at_end": draw(st.integers(0, 3)) == 0}
 
 
 def judge(case):
@@ -173,6 +191,12 @@ def judge(case):
             if undeclared:
                 viol.append("after step %d %r: evaluator #%d returned %r, which is not a group (value and type) declared by its text "
                             "%r" % (step, op, i, undeclared[0], _text_of(model[i])[:80]))
+                return False
+            got_min = [_probe(ev, _minimal(model[i], p)) for p in PROBES[:4]]
+            if got == _fresh(model[i]) and got_min != _fresh(model[i])[:4]:
+                viol.append("after step %d %r: evaluator #%d, called with exactly the fields its text %r reads (%r), gives %r; with "
+                            "extra fields it gives %r" % (step, op, i, _text_of(model[i])[:60], _needed_fields(model[i]), got_min[0],
+                                                          got[0]))
                 return False
             if got != _fresh(model[i]):
                 bad = next(j for j in range(len(PROBES)) if got[j] != _fresh(model[i])[j])
@@ -249,6 +273,8 @@ def judge(case):
                 if got != _fresh(model[i])[op[2]]:
                     viol.append("step %d: call on evaluator #%d gave %r, a fresh evaluator of its text gives %r" % (step, i, got, _fresh(model[i])[op[2]]))
                     break
+        if case.get("probe_only_at_end") and step < len(case["ops"]) - 1:
+            continue  # no observation between the operations: nothing may stay pending from an intermediate text
         if not check_all(step, op):
             break
     if not viol:
@@ -392,9 +418,25 @@ FIXED = [
 ]
 
 
+def _idx(fragment):
+    return next(i for i, t in enumerate(VALID) if fragment in t)
+
+
+def more_fixed():
+    a, b = _idx("return 1 weighted 1, 2 weighted 1"), _idx("return 1.0 weighted 1, 2.0 weighted 1")
+    c, d = _idx("return 0 weighted 1, 2 weighted 1"), _idx("return -0.0 weighted 1, 2 weighted 1")
+    only_plan, both = _idx("def exp { splitters: plan return"), _idx('def third { splitters: uid, plan')
+    for x, y in ((a, b), (b, a), (c, d), (d, c)):
+        yield {"ops": [["new", x], ["call", 0, 0], ["recompile", 0, y], ["call", 0, 1], ["recompile", 0, x], ["recompile", 0, y], ["call", 0, 2]]}
+        yield {"ops": [["new", x], ["new", y], ["call", 1, 0], ["call", 0, 0], ["recompile", 1, x], ["recompile", 0, y]], "probe_only_at_end": True}
+    # texts that read different field sets, in both directions
+    for x, y in ((both, only_plan), (only_plan, both), (_idx("def other { salt: \"s\""), _idx("def num { splitters: uid return 1 w"))):
+        yield {"ops": [["new", x], ["recompile", 0, y], ["call", 0, 0], ["recompile", 0, x], ["call", 0, 1]]}
+
+
 def run(ctx, rec):
     if ctx.shard == 0:
-        runner.direct_run(ctx, rec, "fixed-histories", FIXED, judge)
+        runner.direct_run(ctx, rec, "fixed-histories", FIXED + list(more_fixed()), judge)
         if rec.violations:
             return
     runner.hyp_run(ctx, rec, "histories", histories(), judge, ctx.n(400, 2500))
